@@ -198,7 +198,7 @@ prop('C13', 'model_checking',
 prop('C14', 'exploration',
      'Bindings.tla models the wire each binding writes as a token sequence (structural separators distinct from escaped payload '
      'characters, per escaping rule) and an independent reader; TLC checks NoInjection (exactly the expected parameters, each '
-     'once, existing query preserved, quotes only as delimiters) and RoundTrip for every scenario over a 29-class alphabet (separators, escapes, escape look-alikes, look-alikes of the form template\'s placeholders, backslash spellings), and '
+     'once, existing query preserved, quotes only as delimiters) and RoundTrip for every scenario over a 30-class alphabet (separators, escapes, escape look-alikes, look-alikes of the form template\'s placeholders, backslash spellings, a 70 000-character run), and '
      'exhibits the counterexamples of the pinned design (SOAP newline loss, artifact glue); every scenario is executed through '
      'Entity.apply_binding and read back by strict urllib parse_qsl / html.parser / xml.etree and by Entity.unravel and the SOAP '
      'decoders. Bounded-exhaustive over a character-class alphabet: the "for all strings" part is not proved',
@@ -219,7 +219,7 @@ prop('C08', 'model_checking',
      'EndToEnd.tla composes the IdP build options with the SP acceptance table of C02 (precondition: the requirements are met), the '
      'release contract of C07 (the SP\'s generated metadata asks for what its configuration lists) and the transports of C14, and '
      'enumerates sign_response x sign_assertion x encrypt_assertion x algorithm pair x POST/Redirect/SOAP x requirement triple x '
-     'NameID format x session expiry x 11 value classes x unknown attribute x the SP\'s clock-skew allowance; IdP and SP are configured from each other\'s '
+     'NameID format x session expiry x 12 value classes x unknown attribute x the SP\'s clock-skew allowance; IdP and SP are configured from each other\'s '
      'generated metadata, the response is built by Server.create_authn_response, packed by apply_binding, read from the wire by '
      'independent parsers and parsed by the SP; subject, attributes (after name mapping and trimming), in-response-to, issuer, '
      'session expiry and the element structure must equal what was asked',
